@@ -2,17 +2,14 @@
    pending.  Statements only: each theorem is closed by [exact], pinned by
    [Check] and followed by [Print Assumptions].
 
-   The faithful model of the unchanged code violates the full-strength
-   statements in five input classes (open findings C10-2..C10-6, see
-   known_findings.json); those appear as [_refuted] witnesses next to
-   [_outside_known] / [_partial] statements.  C10-1 was repaired. *)
+   Findings C10-1 .. C10-7 are repaired in the repository and the model is the
+   repaired behaviour; no theorem carries a known-class hypothesis. *)
 From Coq Require Import List NArith Bool.
 From RB Require Import Base.Val Model.Deferral Model.Gr Spec.GrSpec Proofs.Gr.
 Import ListNotations.
 Open Scope N_scope.
 
-(* (1) GrState: helper mode is entered only together with arming a timer
-   (StartTimer or StartLlgrTimers in the same step). *)
+(* helper mode is entered only together with arming a timer *)
 Theorem helper_mode_entry_arms_timer :
   forall (s : grinner) (i : grinput),
     is_peer_restarting s = false ->
@@ -28,7 +25,8 @@ Check helper_mode_entry_arms_timer :
     (exists l, In (GStartLlgrTimers l) (snd (gr_step s i))).
 Print Assumptions helper_mode_entry_arms_timer.
 
-(* (2) GrState: a session drop never ends helper mode. *)
+(* a session drop never ends helper mode; only expiry, End-of-RIB or
+   re-establishment do *)
 Theorem drop_never_leaves_helper_mode :
   forall (s : grinner) gr ll,
     is_peer_restarting s = true ->
@@ -40,10 +38,48 @@ Check drop_never_leaves_helper_mode :
     is_peer_restarting (fst (gr_step s (GSessionDropped gr ll))) = true.
 Print Assumptions drop_never_leaves_helper_mode.
 
-(* (3) A connection attempt that ends before Established (apply_disconnect with
-   nothing negotiated) leaves the LLGR timers, the routes, the helper phase and,
-   while the peer is restarting, the restart timer untouched.  (Holds after the
-   repair of finding C10-1.) *)
+(* Stale routes exist only while a restart timer or an LLGR timer is armed or an
+   End-of-RIB is awaited on the re-established session: after every step of every
+   history (sessions up with any negotiated GR / LLGR sets, announcements,
+   End-of-RIB markers, drops for every reason, failed connection attempts, timer
+   expiries, forced peer-down, admin-down in any order). *)
+Theorem stale_implies_timer_or_eor :
+  forall (evs : list hevent),
+    stale_ok_along h0 evs = true /\ stale_ok (h_run h0 evs) = true.
+Proof. exact C10_stale_implies_timer_or_eor. Qed.
+Check stale_implies_timer_or_eor :
+  forall (evs : list hevent),
+    stale_ok_along h0 evs = true /\ stale_ok (h_run h0 evs) = true.
+Print Assumptions stale_implies_timer_or_eor.
+
+(* the phase / timer / route consistency behind it, as a usable corollary: in every
+   reachable state a session that is up has no timer armed and its own routes are
+   unmarked and in its families; the restart timer is armed exactly in phase
+   PeerRestarting; LLGR timers are armed only in phase LlgrStaling, for the
+   families still staling *)
+Theorem phase_timer_consistency :
+  forall (evs : list hevent),
+    let h := h_run h0 evs in
+    (forall s, h_sess h = Some s ->
+        h_rtimer h = false /\ h_ltimers h = [] /\
+        forall r, In r (h_rib h) -> r_sess r = s_gen s ->
+                  r_stale r = false /\ r_llgr r = false /\ mem (r_fam r) (s_fams s) = true)
+    /\ (h_rtimer h = true <-> exists stale llgr, h_gr h = GPeerRestarting stale llgr)
+    /\ (forall f, mem f (h_ltimers h) = true -> exists rem, h_gr h = GLlgrStaling rem /\ mem f rem = true).
+Proof. exact C10_phase_timer_consistency. Qed.
+Check phase_timer_consistency :
+  forall (evs : list hevent),
+    let h := h_run h0 evs in
+    (forall s, h_sess h = Some s ->
+        h_rtimer h = false /\ h_ltimers h = [] /\
+        forall r, In r (h_rib h) -> r_sess r = s_gen s ->
+                  r_stale r = false /\ r_llgr r = false /\ mem (r_fam r) (s_fams s) = true)
+    /\ (h_rtimer h = true <-> exists stale llgr, h_gr h = GPeerRestarting stale llgr)
+    /\ (forall f, mem f (h_ltimers h) = true -> exists rem, h_gr h = GLlgrStaling rem /\ mem f rem = true).
+Print Assumptions phase_timer_consistency.
+
+(* (a) a connection attempt that ends before Established leaves every pending
+       timer, the helper phase and the routes as they were *)
 Theorem failed_reconnect_keeps_timer :
   forall (h : hstate),
     let h' := h_step h HFailedConnect in
@@ -57,9 +93,7 @@ Check failed_reconnect_keeps_timer :
     /\ (is_peer_restarting (h_gr h) = true -> h_rtimer h' = h_rtimer h).
 Print Assumptions failed_reconnect_keeps_timer.
 
-(* (4) When the restart timer expires and the LLGR period starts, every started
-   family has its LLGR timer armed, and no route of those families carries
-   NO_LLGR; the remaining ones are LLGR-stale marked. *)
+(* (b) NO_LLGR routes are gone when the LLGR period of their family starts *)
 Theorem no_llgr_dropped_at_llgr_start :
   forall (h : hstate) (l : list (fam * N)),
     h_rtimer h = true -> start_llgr (snd (gr_step (h_gr h) GTimerExpired)) = Some l ->
@@ -75,7 +109,7 @@ Check no_llgr_dropped_at_llgr_start :
     /\ (forall r, In r (h_rib h') -> mem (r_fam r) (map fst l) = true -> r_no_llgr r = false /\ r_llgr r = true).
 Print Assumptions no_llgr_dropped_at_llgr_start.
 
-(* (5) The same when a session drop starts the LLGR period directly. *)
+
 Theorem no_llgr_dropped_at_llgr_only_drop :
   forall (h : hstate) gr ll (l : list (fam * N)),
     start_llgr (snd (gr_step (h_gr h) (GSessionDropped gr ll))) = Some l ->
@@ -91,68 +125,63 @@ Check no_llgr_dropped_at_llgr_only_drop :
     forall r, In r (h_rib h') -> mem (r_fam r) (map fst l) = true -> r_no_llgr r = false /\ r_llgr r = true.
 Print Assumptions no_llgr_dropped_at_llgr_only_drop.
 
-(* (6) Outside finding C10-6: the purges triggered by End-of-RIB and by
-   re-establishment never remove an unmarked route that does not carry the
-   LLGR_STALE community. *)
-Theorem fresh_routes_survive_purge_outside_known :
+(* (c) the stale purges (End-of-RIB, re-establishment) never remove an unmarked route;
+       in particular not a route re-announced on the new session, whatever communities it carries *)
+Theorem fresh_routes_survive_purge :
   forall (h : hstate) (e : hevent) (r : route),
     (exists f, e = HEor f) \/ (exists fams gr ll, e = HUp fams gr ll) ->
     In r (h_rib h) -> r_stale r = false -> r_llgr r = false ->
-    r_llgr_comm r = false ->
     In r (h_rib (h_step h e)).
-Proof. exact C10_fresh_routes_survive_purge_outside_known. Qed.
-Check fresh_routes_survive_purge_outside_known :
+Proof. exact C10_fresh_routes_survive_purge. Qed.
+Check fresh_routes_survive_purge :
   forall (h : hstate) (e : hevent) (r : route),
     (exists f, e = HEor f) \/ (exists fams gr ll, e = HUp fams gr ll) ->
     In r (h_rib h) -> r_stale r = false -> r_llgr r = false ->
-    r_llgr_comm r = false ->
     In r (h_rib (h_step h e)).
-Print Assumptions fresh_routes_survive_purge_outside_known.
+Print Assumptions fresh_routes_survive_purge.
 
-(* (7) Finding C10-6: a route announced on the live session that carries
-   LLGR_STALE is removed by the End-of-RIB purge after an LLGR period. *)
-Theorem fresh_routes_survive_purge_refuted :
-  exists (evs : list hevent) (f : fam) (r : route),
-    Known_C10_6 evs = true /\
+(* ... and in every reachable state the routes of the live session are unmarked, so they
+   survive the purge *)
+Theorem live_session_routes_survive_purge :
+  forall (evs : list hevent) (e : hevent) (s : session) (r : route),
     let h := h_run h0 evs in
-    In r (h_rib h) /\ retained h r = false /\ ~ In r (h_rib (h_step h (HEor f))).
-Proof. exact C10_fresh_routes_survive_purge_refuted. Qed.
-Check fresh_routes_survive_purge_refuted :
-  exists (evs : list hevent) (f : fam) (r : route),
-    Known_C10_6 evs = true /\
+    h_sess h = Some s -> In r (h_rib h) -> r_sess r = s_gen s ->
+    (exists f, e = HEor f) ->
+    In r (h_rib (h_step h e)).
+Proof. exact C10_live_session_routes_survive_purge. Qed.
+Check live_session_routes_survive_purge :
+  forall (evs : list hevent) (e : hevent) (s : session) (r : route),
     let h := h_run h0 evs in
-    In r (h_rib h) /\ retained h r = false /\ ~ In r (h_rib (h_step h (HEor f))).
-Print Assumptions fresh_routes_survive_purge_refuted.
+    h_sess h = Some s -> In r (h_rib h) -> r_sess r = s_gen s ->
+    (exists f, e = HEor f) ->
+    In r (h_rib (h_step h e)).
+Print Assumptions live_session_routes_survive_purge.
 
-(* (8) Removal no later than the End-of-RIB / the expiry: after End-of-RIB for f
-   on a GR (resp. LLGR) reconnect no stale (resp. LLGR-stale) route of f is left;
-   after the restart timer expires without LLGR nothing of the stale families is
-   left; after the LLGR timer of f expires no LLGR-stale route of f is left. *)
+(* (d) removal no later than the expiry / the End-of-RIB *)
 Theorem purged_by_expiry_or_eor :
   forall (h : hstate),
     (forall f s g pending, h_sess h = Some s -> s_gr s = Some g -> h_gr h = GPeerReconnected pending false ->
         forall r, In r (h_rib (h_step h (HEor f))) -> r_fam r = f -> r_stale r = false)
     /\ (forall f s g pending, h_sess h = Some s -> s_gr s = Some g -> h_gr h = GPeerReconnected pending true ->
-        forall r, In r (h_rib (h_step h (HEor f))) -> r_fam r = f -> is_llgr_stale r = false)
+        forall r, In r (h_rib (h_step h (HEor f))) -> r_fam r = f -> r_llgr r = false)
     /\ (forall stale, h_rtimer h = true -> h_gr h = GPeerRestarting stale None ->
         forall r, In r (h_rib (h_step h HRestartTimer)) -> mem (r_fam r) stale = false)
     /\ (forall f remaining, mem f (h_ltimers h) = true -> h_gr h = GLlgrStaling remaining ->
-        forall r, In r (h_rib (h_step h (HLlgrTimer f))) -> r_fam r = f -> is_llgr_stale r = false).
+        forall r, In r (h_rib (h_step h (HLlgrTimer f))) -> r_fam r = f -> r_llgr r = false).
 Proof. exact C10_purged_by_expiry_or_eor. Qed.
 Check purged_by_expiry_or_eor :
   forall (h : hstate),
     (forall f s g pending, h_sess h = Some s -> s_gr s = Some g -> h_gr h = GPeerReconnected pending false ->
         forall r, In r (h_rib (h_step h (HEor f))) -> r_fam r = f -> r_stale r = false)
     /\ (forall f s g pending, h_sess h = Some s -> s_gr s = Some g -> h_gr h = GPeerReconnected pending true ->
-        forall r, In r (h_rib (h_step h (HEor f))) -> r_fam r = f -> is_llgr_stale r = false)
+        forall r, In r (h_rib (h_step h (HEor f))) -> r_fam r = f -> r_llgr r = false)
     /\ (forall stale, h_rtimer h = true -> h_gr h = GPeerRestarting stale None ->
         forall r, In r (h_rib (h_step h HRestartTimer)) -> mem (r_fam r) stale = false)
     /\ (forall f remaining, mem f (h_ltimers h) = true -> h_gr h = GLlgrStaling remaining ->
-        forall r, In r (h_rib (h_step h (HLlgrTimer f))) -> r_fam r = f -> is_llgr_stale r = false).
+        forall r, In r (h_rib (h_step h (HLlgrTimer f))) -> r_fam r = f -> r_llgr r = false).
 Print Assumptions purged_by_expiry_or_eor.
 
-(* (9) At a session drop, whatever the reason, only routes of families that were
-   negotiated for GR or LLGR can remain: every other family is removed at once. *)
+
 Theorem non_negotiated_families_dropped_at_once :
   forall (h : hstate) (s : session) (rs : reason) (r : route),
     h_sess h = Some s ->
@@ -168,60 +197,20 @@ Check non_negotiated_families_dropped_at_once :
     mem (r_fam r) (fams_of_gr (s_gr s)) = true \/ mem (r_fam r) (fams_of_llgr (s_llgr s)) = true.
 Print Assumptions non_negotiated_families_dropped_at_once.
 
-(* (10) Findings C10-2..C10-5: "stale routes only while a timer is armed or an
-   End-of-RIB is awaited" is false of the faithful model; one witness per class. *)
-Theorem stale_implies_timer_or_eor_refuted :
-  (Known_C10_2 w2 = true /\ stale_ok (h_run h0 w2) = false)
-  /\ (Known_C10_3 w3 = true /\ stale_ok (h_run h0 w3) = false)
-  /\ (Known_C10_4 w4 = true /\ stale_ok (h_run h0 w4) = false)
-  /\ (Known_C10_5 w5 = true /\ stale_ok (h_run h0 w5) = false).
-Proof. exact C10_stale_implies_timer_or_eor_refuted. Qed.
-Check stale_implies_timer_or_eor_refuted :
-  (Known_C10_2 w2 = true /\ stale_ok (h_run h0 w2) = false)
-  /\ (Known_C10_3 w3 = true /\ stale_ok (h_run h0 w3) = false)
-  /\ (Known_C10_4 w4 = true /\ stale_ok (h_run h0 w4) = false)
-  /\ (Known_C10_5 w5 = true /\ stale_ok (h_run h0 w5) = false).
-Print Assumptions stale_implies_timer_or_eor_refuted.
-
-(* (11) [partial] Outside the known classes the invariant holds after every
-   step of every event sequence of length 4 over sweep_alphabet (complete sweep,
-   19 letters, two families).  Full statement, not proved:
-     forall evs, known_any evs = false -> stale_ok_along h0 evs = true. *)
-Theorem stale_implies_timer_or_eor_partial :
-  forall (evs : list hevent),
-    length evs = 4%nat -> Forall (fun e => In e sweep_alphabet) evs ->
-    known_any evs = false ->
-    stale_ok_along h0 evs = true.
-Proof. exact C10_stale_implies_timer_or_eor_partial. Qed.
-Check stale_implies_timer_or_eor_partial :
-  forall (evs : list hevent),
-    length evs = 4%nat -> Forall (fun e => In e sweep_alphabet) evs ->
-    known_any evs = false ->
-    stale_ok_along h0 evs = true.
-Print Assumptions stale_implies_timer_or_eor_partial.
-
-(* (12) Finding C10-2: after a hard reset the helper phase is Idle and no timer
-   is armed, but the stale-marked routes are still there. *)
-Theorem non_gr_reasons_retain_nothing_refuted :
-  exists evs, Known_C10_2 evs = true /\
-              let h := h_run h0 evs in
-              is_peer_restarting (h_gr h) = false /\ h_rtimer h = false /\ h_ltimers h = [] /\ h_rib h <> [].
-Proof. exact C10_non_gr_reasons_retain_nothing_refuted. Qed.
-Check non_gr_reasons_retain_nothing_refuted :
-  exists evs, Known_C10_2 evs = true /\
-              let h := h_run h0 evs in
-              is_peer_restarting (h_gr h) = false /\ h_rtimer h = false /\ h_ltimers h = [] /\ h_rib h <> [].
-Print Assumptions non_gr_reasons_retain_nothing_refuted.
-
-(* (13) Outside that class: a session that negotiated neither GR nor LLGR leaves
-   no route of its families behind, whatever the reason. *)
-Theorem non_gr_reasons_retain_nothing_outside_known :
-  forall (h : hstate) (s : session) (rs : reason) (r : route),
-    h_sess h = Some s -> s_gr s = None -> s_llgr s = None ->
-    In r (h_rib (h_step h (HDown rs))) -> mem (r_fam r) (s_fams s) = false.
-Proof. exact C10_non_gr_reasons_retain_nothing_outside_known. Qed.
-Check non_gr_reasons_retain_nothing_outside_known :
-  forall (h : hstate) (s : session) (rs : reason) (r : route),
-    h_sess h = Some s -> s_gr s = None -> s_llgr s = None ->
-    In r (h_rib (h_step h (HDown rs))) -> mem (r_fam r) (s_fams s) = false.
-Print Assumptions non_gr_reasons_retain_nothing_outside_known.
+(* (f) a hard reset, an admin shutdown, a non-Cease error (and a NOTIFICATION or hold-timer
+       expiry without the N bit) never enters helper mode and retains nothing, in every
+       reachable state *)
+Theorem non_gr_reasons_retain_nothing :
+  forall (evs : list hevent) (s : session) (rs : reason),
+    let h := h_run h0 evs in
+    h_sess h = Some s -> not_eligible h s rs = true ->
+    let h' := h_step h (HDown rs) in
+    h_rib h' = [] /\ h_rtimer h' = false /\ h_ltimers h' = [] /\ h_sess h' = None /\ h_gr h' = h_gr h.
+Proof. exact C10_non_gr_reasons_retain_nothing. Qed.
+Check non_gr_reasons_retain_nothing :
+  forall (evs : list hevent) (s : session) (rs : reason),
+    let h := h_run h0 evs in
+    h_sess h = Some s -> not_eligible h s rs = true ->
+    let h' := h_step h (HDown rs) in
+    h_rib h' = [] /\ h_rtimer h' = false /\ h_ltimers h' = [] /\ h_sess h' = None /\ h_gr h' = h_gr h.
+Print Assumptions non_gr_reasons_retain_nothing.
